@@ -97,6 +97,11 @@ def DV.stepLine (st : Option DV) (toks : List String) : Option DV × String :=
     match s.target with
     | some _ => (st, "bad-op")
     | none => let s' := s.step .derive; (some s', s'.show)
+  -- the deriving variable held a value before: `InheritFrom` (flag `true`) delivers the current value whatever it is
+  | some s, ["derive", _] =>
+    match s.target with
+    | some _ => (st, "bad-op")
+    | none => let s' := s.step .derive; (some s', s'.show)
   | _, _ => (st, "bad-op")
 
 end Hive.Derived
